@@ -14,6 +14,7 @@ func init() {
 		ruleDef{"C08.R4", c08r4},
 		ruleDef{"C08.R5", c08r5},
 		ruleDef{"C08.R6", c08r6},
+		ruleDef{"C08.R8", c08r8},
 	)
 }
 
@@ -386,4 +387,38 @@ func init() {
 		forkSiblingRule(r, "C08.R7", "pipe.go", "databuffer.go", "write.go", "server.go")
 	}})
 	wantRefs("C08")
+}
+
+// R8: protocol dispatch: a connection is served by the HTTP/2 server iff ALPN negotiated "h2"; everything else (http/1.1, no ALPN)
+// is handed to the HTTP/1.1 server.
+func c08r8(r *R) {
+	c := r.C
+	_, _, sc := serveLoop(r)
+	o := r.Ob("C08.R8", "protocol-dispatch:"+funcName(sc)).At(sc.Pos())
+	h2g := `("h2" == (*crypto/tls.Conn).ConnectionState(crypto/tls.Server(hack.NewHijackClientHelloConn(p1), p0.TLSConfig)).NegotiatedProtocol)`
+	n := 0
+	for _, s := range callsIn(sc, nServeConn) {
+		n++
+		gs := c.guardStrs(s.Block())
+		o.AtI(s).Check(hasGuard(gs, "+"+h2g), "the HTTP/2 server is given connections under %v, want exactly NegotiatedProtocol == \"h2\" (a client without ALPN must be served as HTTP/1.1)", gs)
+	}
+	for _, s := range callsIn(sc, "(*hack.ChannelListener).SendToChannel") {
+		n++
+		gs := c.guardStrs(s.Block())
+		o.AtI(s).Check(hasGuard(gs, "-"+h2g), "the HTTP/1.1 hand-off happens under %v, want the negation of NegotiatedProtocol == \"h2\"", gs)
+	}
+	o.Check(n == 2, "expected one h2 serve site and one h1 hand-off, found %d", n)
+	// ALPN offer
+	tc := c.Func("", "defaultTLSConfig")
+	if o.Check(tc != nil, "defaultTLSConfig not found") {
+		eachInstr(tc, func(i ssa.Instruction) {
+			if al, ok := i.(*ssa.Alloc); ok && typeName(deref(al.Type())) == "tls.Config" {
+				np := complitFields(al)["NextProtos"]
+				if o.Check(np != nil, "tls.Config.NextProtos unset") {
+					got := sliceLitStrings(np)
+					o.Check(len(got) == 2 && got[0] == "h2" && got[1] == "http/1.1", "ALPN protocols offered are %v, want [h2 http/1.1]", got)
+				}
+			}
+		})
+	}
 }
